@@ -1,0 +1,21 @@
+//go:build verif
+
+package js
+
+// Read-only accessors for the verification harness (/verif). Compiled only with -tags verif.
+
+func VerifIdentifierStartTable() [256]bool { return identifierStartTable }
+func VerifIdentifierTable() [256]bool      { return identifierTable }
+
+func verifCopyMap(m map[byte]TokenType) map[byte]TokenType {
+	c := map[byte]TokenType{}
+	for k, v := range m {
+		c[k] = v
+	}
+	return c
+}
+
+func VerifOpTokens() map[byte]TokenType     { return verifCopyMap(opTokens) }
+func VerifOpEqTokens() map[byte]TokenType   { return verifCopyMap(opEqTokens) }
+func VerifOpOpTokens() map[byte]TokenType   { return verifCopyMap(opOpTokens) }
+func VerifOpOpEqTokens() map[byte]TokenType { return verifCopyMap(opOpEqTokens) }
